@@ -69,31 +69,49 @@ func buildBlockStatements(closureContext *parser.ClosureContext) []core_domain.C
 	}
 	statementsContext := blockStatements.(*parser.BlockStatementsContext)
 	for _, blockStatement := range statementsContext.AllBlockStatement() {
-		var result *core_domain.CodeDependency = nil
-
-		commandExprCtx := blockStatement.GetChild(0).GetChild(0).GetChild(0).(*parser.CommandExpressionContext)
-		pathExpression := commandExprCtx.GetChild(0).(*parser.PostfixExprAltForExprContext).GetChild(0).(*parser.PostfixExpressionContext).PathExpression()
+		// only `configuration <notation>` / `configuration(<notation>)` statements declare dependencies; anything else in
+		// the block (a declaration, an assignment, an `if`, a nested block such as `constraints { }`) is skipped
+		commandExprCtx, ok := commandExpressionOf(blockStatement)
+		if !ok {
+			continue
+		}
+		postfixAlt, ok := commandExprCtx.GetChild(0).(*parser.PostfixExprAltForExprContext)
+		if !ok {
+			continue
+		}
+		postfix, ok := postfixAlt.GetChild(0).(*parser.PostfixExpressionContext)
+		if !ok || postfix.PathExpression() == nil {
+			continue
+		}
+		pathExpression := postfix.PathExpression()
 		scope := pathExpression.GetChild(0).(antlr.ParseTree).GetText()
 
+		var found []*core_domain.CodeDependency
 		//  with quote testImplementation('org.springframework.boot:spring-boot-starter-test')
 		isWithQuote := pathExpression.GetChildCount() >= 2
 		if isWithQuote {
-			argumentsContext := pathExpression.GetChild(1).(*parser.PathElementContext).GetChild(0).(*parser.ArgumentsContext)
-			argListCtx := argumentsContext.GetChild(1).(*parser.EnhancedArgumentListContext)
-			for _, argElement := range argListCtx.AllEnhancedArgumentListElement() {
-				if dep := ConvertToJDep(argElement.GetText()); dep != nil {
-					result = dep
+			if pathElement, ok := pathExpression.GetChild(1).(*parser.PathElementContext); ok {
+				if argumentsContext, ok := pathElement.GetChild(0).(*parser.ArgumentsContext); ok && argumentsContext.GetChildCount() > 2 {
+					if argListCtx, ok := argumentsContext.GetChild(1).(*parser.EnhancedArgumentListContext); ok {
+						for _, argElement := range argListCtx.AllEnhancedArgumentListElement() {
+							if dep := ConvertToJDep(argElement.GetText()); dep != nil {
+								found = append(found, dep)
+							}
+						}
+					}
 				}
 			}
 		}
 
 		// normal: developmentOnly 'org.springframework.boot:spring-boot-devtools'
 		if commandExprCtx.GetChildCount() >= 2 {
-			argumentListContext := commandExprCtx.GetChild(1).(*parser.ArgumentListContext)
-			result = BuildDependency(argumentListContext)
+			if argumentListContext, ok := commandExprCtx.GetChild(1).(*parser.ArgumentListContext); ok {
+				found = BuildDependencies(argumentListContext)
+			}
 		}
 
-		if result != nil {
+		// every notation of the statement declares a dependency: implementation 'a:b', 'c:d'
+		for _, result := range found {
 			result.Scope = scope
 			results = append(results, *result)
 		}
@@ -102,14 +120,27 @@ func buildBlockStatements(closureContext *parser.ClosureContext) []core_domain.C
 	return results
 }
 
-func BuildDependency(argumentListContext *parser.ArgumentListContext) *core_domain.CodeDependency {
-	var result *core_domain.CodeDependency = nil
+// blockStatement -> statement -> statementExpression -> commandExpression, when the statement has that shape
+func commandExpressionOf(blockStatement antlr.Tree) (*parser.CommandExpressionContext, bool) {
+	var node antlr.Tree = blockStatement
+	for i := 0; i < 3; i++ {
+		if node == nil || node.GetChildCount() == 0 {
+			return nil, false
+		}
+		node = node.GetChild(0)
+	}
+	ctx, ok := node.(*parser.CommandExpressionContext)
+	return ctx, ok
+}
+
+func BuildDependencies(argumentListContext *parser.ArgumentListContext) []*core_domain.CodeDependency {
+	var result []*core_domain.CodeDependency
 	for _, arg := range argumentListContext.AllArgumentListElement() {
 		if reflect.TypeOf(arg.(*parser.ArgumentListElementContext).GetChild(0)).String() == "*parser.ExpressionListElementContext" {
 			listElementContext := arg.(*parser.ArgumentListElementContext).GetChild(0).(*parser.ExpressionListElementContext)
 			// project(...), fileTree(...), GStrings and other expressions are not dependency notations: skip them
 			if dep := ConvertToJDep(listElementContext.GetText()); dep != nil {
-				result = dep
+				result = append(result, dep)
 			}
 		}
 	}
